@@ -4,8 +4,11 @@ C13 — a bundle authorises exactly what one of its own tokens authorises.
 Theorems about the value-level bundle model of `Macaroon/Bundle/Model.lean` (`Bundle.parse`,
 `verify`, `validate`, `addTokens`, `select`, `filter`, `attenuate`, `discharge`, `clone`, `header`)
 on top of the concrete token logic (`Macaroon.verify`, `add`, `dischargeTicket`, the codec) and the
-header tokeniser of C19.  The object-level operations the driver runs (`HBundle.*`) are, by
-definition, these functions applied to the bundle's view and written back through the references.
+header tokeniser of C19.  The object-level operations the driver runs (`HBundle.*`, on a `Heap` of
+`*UnverifiedMacaroon`s and `Caveats` cells) refine them: `hop_refines` (view ∘ op = op ∘ view on a
+bundle that owns its objects), `hop_frame` (slices that share no object with the bundle operated on
+keep their view and stay apart), `clone_shares_nothing`; the negative side is
+`select_shares_objects` (a `Select`-derived bundle DOES share, so the frame hypothesis is needed).
 Tie: families `bundle` (histories, per-step state of every live bundle; `spec.bundle` lines compare
 the bundle's verdict per token with direct `macaroon.Verify` + `CaveatSet.Validate`).
 
@@ -13,6 +16,7 @@ the bundle's verdict per token with direct `macaroon.Verify` + `CaveatSet.Valida
 code as found, kept as the negative witness `f6_discharge_violates_contract`.
 -/
 import Macaroon.Lemmas.Bundle
+import Macaroon.Lemmas.Refine
 import Macaroon.Props.C04
 import Macaroon.Props.C19
 import Macaroon.Props.C03
@@ -567,6 +571,102 @@ example : forOrgUnverified 1 (flyTok [.organization 1 31, .organization 2 31]) =
     forOrgUnverified 1 (flyTok []) = false := by
   decide
 
+/-! ### the object level refines the value level -/
+
+open Macaroon.Lemmas.Refine in
+/-- **hop_refines.**  On a bundle that owns its objects (`BOK`: every reference points into the heap,
+no `*UnverifiedMacaroon` and no `Caveats` cell is referenced from two slots — true of every parsed
+bundle, `parsed_bundle_owns_its_objects`, and kept by every operation below), each object-level
+operation is the value-level operation seen through `view`, with the same error flag, and its
+footprint is `Upd`: the heap only grows or is written at cells of this bundle, and the resulting
+bundle again owns its objects, which are objects of the old bundle or fresh ones. -/
+theorem hop_refines (h : Heap) (b : HBundle) (ok : BOK h b) :
+    (∀ o, (HBundle.verifyBy h b o).2.view (HBundle.verifyBy h b o).1 = (b.view h).verifyBy o ∧
+      Upd h b (HBundle.verifyBy h b o).1 (HBundle.verifyBy h b o).2) ∧
+    (∀ hdr, ((HBundle.addTokens h b hdr).2.1.view (HBundle.addTokens h b hdr).1, (HBundle.addTokens h b hdr).2.2)
+        = Bundle.addTokens (b.view h) hdr ∧
+      Upd h b (HBundle.addTokens h b hdr).1 (HBundle.addTokens h b hdr).2.1) ∧
+    (∀ sc loc ka cb rnds,
+      ((HBundle.dischargeWith sc h b loc ka cb rnds).2.1.view (HBundle.dischargeWith sc h b loc ka cb rnds).1,
+        (HBundle.dischargeWith sc h b loc ka cb rnds).2.2) = Bundle.dischargeWith sc (b.view h) loc ka cb rnds ∧
+      Upd h b (HBundle.dischargeWith sc h b loc ka cb rnds).1 (HBundle.dischargeWith sc h b loc ka cb rnds).2.1) ∧
+    (∀ items, (b.view (HBundle.attenuate h b items).1, (HBundle.attenuate h b items).2) = (b.view h).attenuate items ∧
+      Upd h b (HBundle.attenuate h b items).1 b) ∧
+    (∀ f, (HBundle.filter h b f).view h = (b.view h).filter f ∧ Upd h b h (HBundle.filter h b f)) :=
+  ⟨fun o => ⟨(verifyBy_refines h b o ok).1, (verifyBy_refines h b o ok).2.2⟩,
+   fun hdr => ⟨(addTokens_refines h b hdr ok).1, (addTokens_refines h b hdr ok).2.2⟩,
+   fun sc loc ka cb rnds => ⟨(dischargeWith_refines sc h b loc ka cb rnds ok).1, (dischargeWith_refines sc h b loc ka cb rnds ok).2.2⟩,
+   fun items => attenuate_refines h b items ok,
+   fun f => filter_refines h b f ok⟩
+
+open Macaroon.Lemmas.Refine in
+/-- **hop_frame.**  Whatever has footprint `Upd` on bundle `b` (every operation of `hop_refines`): a
+slice `c` of references into the old heap that shares no object with `b` denotes the same tokens
+afterwards, and shares no object with the resulting bundle either (so the hypothesis is kept along a
+history).  Verify, AddTokens and Discharge moreover leave EVERY old reference alone (`Ext`: the heap
+is only extended) — only `Attenuate` writes, and only at cells of `b`. -/
+theorem hop_frame {h h' : Heap} {b b' : HBundle} (up : Upd h b h' b') (c : HBundle) (hc : ∀ r ∈ c.rs, RefIn h r)
+    (hap : ∀ r0 ∈ b.rs, ∀ r ∈ c.rs, Apart r0 r) :
+    c.view h' = c.view h ∧ ∀ r' ∈ b'.rs, ∀ r ∈ c.rs, Apart r' r :=
+  ⟨up.frame_view c hc hap, up.keeps_apart c hc hap⟩
+
+open Macaroon.Lemmas.Refine in
+/-- the operations that do not write: the new heap is the old one with objects allocated behind it, so
+every reference into the old heap — of any bundle, shared or not — denotes what it denoted -/
+theorem hop_only_allocates (h : Heap) (b : HBundle) (ok : BOK h b) (r : Ref) (hr : RefIn h r) :
+    (∀ o, (HBundle.verifyBy h b o).1.tok r = h.tok r) ∧
+    (∀ hdr, (HBundle.addTokens h b hdr).1.tok r = h.tok r) ∧
+    (∀ sc loc ka cb rnds, (HBundle.dischargeWith sc h b loc ka cb rnds).1.tok r = h.tok r) ∧
+    (HBundle.clone h b).1.tok r = h.tok r :=
+  ⟨fun o => tok_ext (verifyBy_refines h b o ok).2.1 hr,
+   fun hdr => tok_ext (addTokens_refines h b hdr ok).2.1 hr,
+   fun sc loc ka cb rnds => tok_ext (dischargeWith_refines sc h b loc ka cb rnds ok).2.1 hr,
+   tok_ext (clone_refines h b).2.1 hr⟩
+
+open Macaroon.Lemmas.Refine in
+/-- **clone_shares_nothing.**  `HBundle.clone` is `Bundle.clone` through `view`; the clone owns its
+objects, all of them fresh (behind everything the old heap holds), so it is apart from every slice of
+old references — in particular from its original, whose view is unchanged. -/
+theorem clone_shares_nothing (h : Heap) (b : HBundle) (hb : ∀ r ∈ b.rs, RefIn h r) :
+    (HBundle.clone h b).2.view (HBundle.clone h b).1 = (b.view h).clone ∧
+    BOK (HBundle.clone h b).1 (HBundle.clone h b).2 ∧
+    b.view (HBundle.clone h b).1 = b.view h ∧
+    ∀ r' ∈ (HBundle.clone h b).2.rs, ∀ r ∈ b.rs, Apart r' r := by
+  obtain ⟨a1, a2, a3, a4⟩ := clone_refines h b
+  refine ⟨a1, a3, ?_, ?_⟩
+  · simp only [HBundle.view]; exact congrArg _ (view_ext a2 hb)
+  · intro r' hr' r hr
+    constructor
+    · intro u hu hu'
+      have := (a4 r' hr').1 u hu; have := (hb r hr).1 u hu'; omega
+    · intro v hv hv'
+      have := (a4 r' hr').2 v hv; have := (hb r hr).2 v hv'; omega
+
+open Macaroon.Lemmas.Refine in
+/-- every parsed bundle owns its objects, and they are fresh -/
+theorem parsed_bundle_owns_its_objects (h : Heap) (pl : Bytes) (hdr : Str) (f : Filter) :
+    ((HBundle.parseWith h pl hdr f).2.1.view (HBundle.parseWith h pl hdr f).1, (HBundle.parseWith h pl hdr f).2.2)
+      = Bundle.parseWith pl hdr f ∧
+    BOK (HBundle.parseWith h pl hdr f).1 (HBundle.parseWith h pl hdr f).2.1 ∧
+    ∀ r ∈ (HBundle.parseWith h pl hdr f).2.1.rs, Fresh h r :=
+  ⟨(parseWith_refines h pl hdr f).1, (parseWith_refines h pl hdr f).2.2.1, (parseWith_refines h pl hdr f).2.2.2⟩
+
+/-- **the frame hypothesis is needed** (negative witness): a `Select`-derived bundle holds the SAME
+pointers as its parent, so attenuating the parent changes what the selection denotes — at object
+level `view ∘ op = op ∘ view` holds for the bundle operated on, not for bundles that share with it.
+One verified token; the selection keeps it; after `Attenuate` on the parent the selection shows the
+attenuated token. -/
+theorem select_shares_objects (pl : Bytes) (s : Str) (m : M) (cs : CS) (items : List (AddItem Bytes))
+    (s' : Str) (m' : M) (added : CS) (hloc : m.loc = pl)
+    (hatt : Bundle.attMac items m = some (s', m', added)) :
+    let h : Heap := ⟨[⟨s, m⟩], [cs]⟩
+    let b : HBundle := ⟨pl, [.ver 0 0]⟩
+    let sel := HBundle.select h b .keepAll
+    sel.rs = b.rs ∧ sel.view h = ⟨pl, [.verified s m cs]⟩ ∧
+    sel.view (HBundle.attenuate h b items).1 = ⟨pl, [.verified s' m' (cs ++ added)]⟩ := by
+  simp [HBundle.select, Filter.mask, applyMask, HBundle.view, Heap.view, Heap.tok, Heap.u, Heap.v, HBundle.attenuate,
+    Bundle.attenuateTs, isPermAt, Tok.mac?, hloc, Bundle.attTok, hatt, Heap.storeAll, Heap.store]
+
 end Macaroon.Props.C13
 
 #print axioms Macaroon.Props.C13.bundle_decision
@@ -618,3 +718,9 @@ end Macaroon.Props.C13
 #print axioms Macaroon.Props.C13.flyio_filters_contracts
 #print axioms Macaroon.Props.C13.flyio_nonces
 #print axioms Macaroon.Props.C13.f6_ticket_does_not_open
+#print axioms Macaroon.Props.C13.hop_refines
+#print axioms Macaroon.Props.C13.hop_frame
+#print axioms Macaroon.Props.C13.hop_only_allocates
+#print axioms Macaroon.Props.C13.clone_shares_nothing
+#print axioms Macaroon.Props.C13.parsed_bundle_owns_its_objects
+#print axioms Macaroon.Props.C13.select_shares_objects
